@@ -6,6 +6,7 @@ package main
 // one shared cache as run.go wires it, and (mode fault) the real proxy in front.
 
 import (
+	"strconv"
 	"bytes"
 	"io"
 	"crypto/md5"
@@ -99,6 +100,7 @@ type dohScript struct {
 	body    []byte
 	lastmod string
 	delayMs int // "auto" only
+	releaseAt time.Time // "autolm" only
 }
 
 type dohReq struct {
@@ -171,6 +173,17 @@ func (s *dohServer) handler(w http.ResponseWriter, r *http.Request) {
 	w.Header().Set("Content-Type", "application/dns-message")
 	fl, _ := w.(http.Flusher)
 	switch sc.kind {
+	case "autolm": // as auto; the first label of the name, t<unix seconds>, is announced as the profile's last change,
+		// and every response of a burst leaves at the same instant
+		if len(body) > 14 && body[13] == 't' {
+			if sec, err := strconv.ParseInt(string(body[14:13+int(body[12])]), 10, 64); err == nil {
+				w.Header().Set("X-Conf-Last-Modified", time.Unix(sec, 0).UTC().Format(time.RFC1123))
+			}
+		}
+		if d := time.Until(sc.releaseAt); d > 0 {
+			time.Sleep(d)
+		}
+		_, _ = w.Write(autoAnswerP(body, r.URL.Path))
 	case "auto": // the answer is a function of the question bytes alone (e2e mode)
 		if sc.delayMs > 0 {
 			time.Sleep(time.Duration(sc.delayMs) * time.Millisecond) // keeps requests outstanding long enough to overlap
@@ -504,9 +517,81 @@ func resolverEngine(args []string) error {
 		return resolverHist(r, c.n, certDir)
 	case "fault":
 		return resolverFault(r, c.n, certDir)
+	case "lmconc":
+		return resolverLastModConc(r, c.n, certDir)
 	}
 	return errors.New("resolver: unknown mode")
 }
+
+// ---------- mode lmconc: bursts of simultaneous responses announcing different last-modified stamps ----------
+// After a burst the profile's register must hold what every sequential order of the same responses
+// leaves there (Proofs/LastModFacts.v: their maximum).
+func resolverLastModConc(r *rng, n int, certDir string) error {
+	w, err := newRWorld(certDir, true, 0, 0)
+	if err != nil {
+		return err
+	}
+	defer w.close()
+	if err := w.setTransport(false, false); err != nil {
+		return err
+	}
+	base := time.Now().Unix() - 100000
+	for round := 0; round < n; round++ {
+		prof := fmt.Sprintf("lm%d", round)
+		url := "https://doh.test/" + prof
+		w.res.DOH.GetProfileURL = func(q query.Query) (string, string) { return url, prof }
+		k := r.rng(2, 6)
+		if round%2 == 1 {
+			k = r.rng(8, 16)
+		}
+		stamps := make([]int64, k)
+		seen := map[int64]bool{}
+		for i := range stamps {
+			for {
+				stamps[i] = base + int64(round)*100 + int64(r.intn(90))
+				if !seen[stamps[i]] {
+					seen[stamps[i]] = true
+					break
+				}
+			}
+		}
+		w.doh.set(&dohScript{kind: "autolm", releaseAt: time.Now().Add(1500 * time.Microsecond)})
+		var wg sync.WaitGroup
+		for i := range stamps {
+			wg.Add(1)
+			go func(i int) {
+				defer wg.Done()
+				name := fmt.Sprintf("t%d.r%d.example", stamps[i], round)
+				payload := msgSpec{id: r2id(round, i), flags: 0x0100, qs: [][]byte{question(encodeName(name), 1, 1)}}.encode()
+				q, err := query.New(payload, net.IP{127, 0, 0, 9}, net.IP{127, 0, 0, 1})
+				if err != nil {
+					return
+				}
+				ctx, cancel := context.WithTimeout(context.Background(), 2*time.Second)
+				_, _, _ = w.res.Resolve(ctx, q, make([]byte, 4096))
+				cancel()
+			}(i)
+		}
+		wg.Wait()
+		w.doh.take()
+		final := w.res.DOH.VerifLastMod(url)
+		fin := int64(0)
+		if !final.IsZero() {
+			fin = final.Unix()
+		}
+		var toks []string
+		for _, s := range stamps {
+			toks = append(toks, fmt.Sprint(s-base))
+		}
+		if fin != 0 {
+			fin -= base
+		}
+		emit("lmc", itoa(round), sx(url), strings.Join(toks, ","), "=>", fmt.Sprint(fin))
+	}
+	return nil
+}
+
+func r2id(a, b int) int { return (a*7 + b*131 + 1) & 0xffff }
 
 // ---------- mode hist: cache histories ----------
 func resolverHist(r *rng, n int, certDir string) error {
